@@ -157,12 +157,10 @@ bool OnAlloc(void *p, size_t sz, bool aligned)
   for (int k = 0; k < g_ntrack; ++k) {
     if ((g_track[k].sz == sz || g_track[k].sz == 0) && g_track[k].aligned == aligned) {
       if (g_nblocks >= 8192) return false;
-      // lowest free name of this class
-      bool used[512] = {};
-      for (int i = 0; i < g_nblocks; ++i)
-        if (g_blocks[i].live && g_blocks[i].cls == k && g_blocks[i].name < 512) used[g_blocks[i].name] = true;
+      // names are never reused within an execution: the k-th allocation of a class is <cls>k
       int name = 1;
-      while (name < 511 && used[name]) ++name;
+      for (int i = 0; i < g_nblocks; ++i)
+        if (g_blocks[i].cls == k) ++name;
       g_blocks[g_nblocks++] = Block{static_cast<const char *>(p), sz, k, name, true};
       ++g_gw;
       Log("{\"e\":\"alloc\",\"t\":%d,\"cls\":\"%s\",\"n\":\"%s%d\",\"addr\":\"%lx\"}", tl_self, g_track[k].cls,
